@@ -243,6 +243,7 @@ def run(repo: Repo, L: Ledger, tier: str):
     _t4(L, pa, la, agp=True)
     _t4(L, pt, lt, agp=False)
     _t5(repo, L)
+    _t10(repo, L)
     _t7(L, pa, la, 0)
     _t7(L, pt, lt, 2)
     _t8(repo, L)
@@ -598,6 +599,33 @@ def _t5(repo, L):
 
 
 # ------------------------------------------------------------------------------ T7
+
+
+def _t10(repo, L):
+    """If a row class defines __eq__/__hash__, they must distinguish every field the codecs carry
+    (otherwise any cache, dict or set keyed by rows — e.g. a memoising writer — merges different rows)."""
+    for cname, fields in (("Fragment", ("name", "start", "end", "strand", "tags")), ("Gap", ("length", "gap_type"))):
+        cls = repo.cls(cname)
+        slots = try_fold(cls.attrs.get("__slots__"), default=()) if cls.attrs.get("__slots__") is not None else ()
+        for meth in ("__eq__", "__hash__"):
+            m = cls.methods.get(meth)
+            if m is None:
+                L.ok("T10", f"{cname}.{meth}", "not defined: identity semantics", cls.module.relpath)
+                continue
+            used = set()
+            uses_all_slots = False
+            for n in walk_shallow(m.node):
+                if isinstance(n, ast.Attribute) and is_name(n.value, "self"):
+                    used.add(n.attr.lstrip("_"))
+                    mm = cls.methods.get(n.attr)
+                    if mm is not None and any(isinstance(x, ast.Attribute) and x.attr == "__slots__" for x in walk_shallow(mm.node)):
+                        uses_all_slots = True
+                if isinstance(n, ast.Attribute) and n.attr == "__slots__":
+                    uses_all_slots = True
+            if uses_all_slots:
+                used |= {str(x).lstrip("_") for x in (slots if isinstance(slots, tuple | list) else (slots,))}
+            missing = [f for f in fields if f not in used]
+            L.check(not missing, "T10", f"{cname}.{meth}", "distinguishes every field the codecs carry", f"{cname}.{meth} ignores {missing}: rows that differ only there are equal, so a dict/cache keyed by rows (e.g. a memoising writer) emits one row's text for the other", m.loc())
 
 
 def _t7(L, parser: Func, lp, col):
